@@ -40,6 +40,7 @@ Definition E_InvalidState : Z := 5.
 Definition EMIT_OK : Z := 0.
 Definition EMIT_EXHAUSTED : Z := 1.     (* device handed out no tx token *)
 Definition EMIT_DISPATCH : Z := 2.      (* dispatch_ip failed: neighbor pending / no route *)
+Definition EMIT_BUSY : Z := 3.          (* IPv4 fragmenter still holds unsent fragments: the packet stays in its socket *)
 
 Definition PROTO_ICMP : Z := 1.
 Definition PROTO_UDP : Z := 17.
@@ -605,8 +606,9 @@ Definition AUX_NEIGHBOR_SOLICIT : Z := 2.
 Definition AUX_REPLY : Z := 3.                 (* stack-generated ICMP error / echo reply *)
 
 Inductive frame_out :=
-| FO_Pkt (p : ippacket)
-| FO_Aux (kind : Z) (a : ipaddr).
+| FO_Pkt (p : ippacket)                        (* a whole socket datagram has left (unfragmented, or its last fragment) *)
+| FO_Aux (kind : Z) (a : ipaddr)
+| FO_Frag (off len : Z) (more : bool).         (* one IPv4 fragment: payload offset, payload length, MF *)
 
 Record iface := mkIf {
   if_eth : bool;                    (* Medium::Ethernet (true) or Medium::Ip *)
@@ -616,23 +618,28 @@ Record iface := mkIf {
   if_silent : Z;                    (* neighbor cache silent_until *)
   if_budget : option Z;             (* tx tokens the device still hands out; None = unlimited *)
   if_rxq : list frame_in;           (* frames waiting in the device *)
-  if_out : list frame_out           (* frames transmitted, oldest first *)
+  if_out : list frame_out;          (* frames transmitted, oldest first *)
+  if_frag : option (frame_out * Z * Z)
+                                    (* Fragmenter: the packet being sent in fragments (as it is reported once
+                                       complete), packet_len, sent_bytes; None = packet_len = sent_bytes = 0 *)
 }.
 
-Definition if_new (eth : bool) (mtu : Z) : iface := mkIf eth mtu 0 [] 0 None [] [].
+Definition if_new (eth : bool) (mtu : Z) : iface := mkIf eth mtu 0 [] 0 None [] [] None.
 
 Definition if_set_now (st : iface) (t : Z) :=
-  mkIf (if_eth st) (if_mtu st) t (if_neigh st) (if_silent st) (if_budget st) (if_rxq st) (if_out st).
+  mkIf (if_eth st) (if_mtu st) t (if_neigh st) (if_silent st) (if_budget st) (if_rxq st) (if_out st) (if_frag st).
 Definition if_set_neigh (st : iface) (n : list (ipaddr * Z)) :=
-  mkIf (if_eth st) (if_mtu st) (if_now st) n (if_silent st) (if_budget st) (if_rxq st) (if_out st).
+  mkIf (if_eth st) (if_mtu st) (if_now st) n (if_silent st) (if_budget st) (if_rxq st) (if_out st) (if_frag st).
 Definition if_set_silent (st : iface) (t : Z) :=
-  mkIf (if_eth st) (if_mtu st) (if_now st) (if_neigh st) t (if_budget st) (if_rxq st) (if_out st).
+  mkIf (if_eth st) (if_mtu st) (if_now st) (if_neigh st) t (if_budget st) (if_rxq st) (if_out st) (if_frag st).
 Definition if_set_budget (st : iface) (b : option Z) :=
-  mkIf (if_eth st) (if_mtu st) (if_now st) (if_neigh st) (if_silent st) b (if_rxq st) (if_out st).
+  mkIf (if_eth st) (if_mtu st) (if_now st) (if_neigh st) (if_silent st) b (if_rxq st) (if_out st) (if_frag st).
 Definition if_set_rxq (st : iface) (q : list frame_in) :=
-  mkIf (if_eth st) (if_mtu st) (if_now st) (if_neigh st) (if_silent st) (if_budget st) q (if_out st).
+  mkIf (if_eth st) (if_mtu st) (if_now st) (if_neigh st) (if_silent st) (if_budget st) q (if_out st) (if_frag st).
 Definition if_set_out (st : iface) (o : list frame_out) :=
-  mkIf (if_eth st) (if_mtu st) (if_now st) (if_neigh st) (if_silent st) (if_budget st) (if_rxq st) o.
+  mkIf (if_eth st) (if_mtu st) (if_now st) (if_neigh st) (if_silent st) (if_budget st) (if_rxq st) o (if_frag st).
+Definition if_set_frag (st : iface) (f : option (frame_out * Z * Z)) :=
+  mkIf (if_eth st) (if_mtu st) (if_now st) (if_neigh st) (if_silent st) (if_budget st) (if_rxq st) (if_out st) f.
 
 (* Device::transmit / receive hand out a token unless the budget is exhausted *)
 Definition if_has_token (st : iface) : bool :=
@@ -642,6 +649,36 @@ Definition if_has_token (st : iface) : bool :=
 Definition if_consume (st : iface) (f : frame_out) : iface :=
   let st1 := if_set_out st (if_out st ++ [f]) in
   if_set_budget st1 (match if_budget st with Some b => Some (b - 1) | None => None end).
+
+(* ---- IPv4 fragmenter (src/iface/fragmentation.rs Fragmenter, interface/ipv4.rs ipv4_egress /
+        dispatch_ipv4_frag, the fragmentation branch of dispatch_ip) ---- *)
+(* Fragmenter::finished: packet_len == sent_bytes *)
+Definition if_frag_finished (st : iface) : bool :=
+  match if_frag st with None => true | Some (_, len, sent) => len =? sent end.
+
+(* DeviceCapabilities::max_ipv4_fragment_size(header_len) *)
+Definition if_max_frag (st : iface) : Z :=
+  let payload_mtu := if_mtu st - wipv4_HEADER_LEN in
+  payload_mtu - payload_mtu mod 8.
+
+(* the datagram is reported (not transmitted again) when its last fragment has left *)
+Definition if_report (st : iface) (f : frame_out) : iface := if_set_out st (if_out st ++ [f]).
+
+(* ipv4_egress: reset a finished fragmenter, otherwise send the next fragment if the device
+   hands out a token *)
+Definition if_ipv4_egress (st : iface) : iface :=
+  let st := if if_frag_finished st then if_set_frag st None else st in
+  match if_frag st with
+  | None => st
+  | Some (f, len, sent) =>
+      if (sent <? len) && if_has_token st then
+        let n := Z.min (len - sent) (if_max_frag st) in
+        let more := negb (len - sent =? n) in
+        let st1 := if_consume st (FO_Frag (sent - wipv4_HEADER_LEN) n more) in
+        let st2 := if_set_frag st1 (Some (f, len, sent + n)) in
+        if more then st2 else if_report st2 f
+      else st
+  end.
 
 (* neighbor::Cache::lookup: 0 Found, 1 NotFound, 2 RateLimited *)
 Fixpoint neigh_find (l : list (ipaddr * Z)) (a : ipaddr) : option Z :=
@@ -708,8 +745,8 @@ Definition if_lookup_hardware_addr (ev : env) (st : iface) (dst : ipaddr) : ifac
        end.
 
 (* dispatch_ip for a packet to [dst] of IP version [ver] and total IP length [total], which
-   appears on the wire as [f]: true = Ok(()) (transmitted, or silently dropped because it
-   exceeds the MTU and cannot be fragmented), false = Err *)
+   appears on the wire as [f]: true = Ok(()) (transmitted, or its first fragment transmitted, or
+   silently dropped because it exceeds the MTU and cannot be fragmented now), false = Err *)
 Definition if_dispatch_ip (ev : env) (st : iface) (ver : Z) (dst : ipaddr) (total : Z) (f : frame_out)
   : outcome (iface * bool) :=
   if addr_is_unspecified dst then Panic                    (* assert!(!ip_repr.dst_addr().is_unspecified()) *)
@@ -717,9 +754,15 @@ Definition if_dispatch_ip (ev : env) (st : iface) (ver : Z) (dst : ipaddr) (tota
     let '(st1, ok) := if if_eth st then if_lookup_hardware_addr ev st dst else (st, true) in
     if negb ok then Ok (st1, false)
     else if total >? if_mtu st1 then
-      if (ver =? 4) && (total <=? cfg_FRAGMENTATION_BUFFER_SIZE)
-      then Ok (if_consume st1 f, true)      (* IPv4 fragmentation: out of the modelled scope (never reached: mtu >= buffer) *)
-      else Ok (st1, true)                   (* "Dropping": Ok(()) without a frame *)
+      if ver =? 4 then
+        if cfg_FRAGMENTATION_BUFFER_SIZE <? total then Ok (st1, true)   (* "Fragmentation buffer is too small ... Dropping" *)
+        else if negb (if_frag_finished st1) then Ok (st1, true)         (* "Fragmenter is busy with a previous packet. Dropping" *)
+        else
+          (* start fragmentation: the first fragment leaves now, the rest through ipv4_egress *)
+          let n := if_max_frag st1 in
+          let st2 := if_consume st1 (FO_Frag 0 n true) in
+          Ok (if_set_frag st2 (Some (f, total, n + wipv4_HEADER_LEN)), true)
+      else Ok (st1, true)                   (* IPv6: "fragmentation support is unimplemented. Dropping" *)
     else Ok (if_consume st1 f, true).
 
 Definition pkt_total_len (p : ippacket) : Z := ip_header_len (a_ver (p_dst p)) + p_iplen p.
@@ -731,7 +774,10 @@ Definition egress_env : Type := (iface * option ipaddr * bool)%type.
 Definition if_respond (ev : env) (p : ippacket) (e : egress_env) : outcome (egress_env * Z) :=
   let '(st, _, res) := e in
   let na := Some (p_dst p) in
-  if negb (if_has_token st) then Ok ((st, na, res), EMIT_EXHAUSTED)
+  (* while fragments of a previous packet are unsent, a packet that needs fragmentation stays in its socket *)
+  if (a_ver (p_dst p) =? 4) && (pkt_total_len p >? if_mtu st) && negb (if_frag_finished st)
+  then Ok ((st, na, res), EMIT_BUSY)
+  else if negb (if_has_token st) then Ok ((st, na, res), EMIT_EXHAUSTED)
   else
     do '(st1, ok) <- if_dispatch_ip ev st (a_ver (p_dst p)) (p_dst p) (pkt_total_len p) (FO_Pkt p);
     if ok then Ok ((st1, na, true), EMIT_OK) else Ok ((st1, na, res), EMIT_DISPATCH).
@@ -746,7 +792,8 @@ Definition meta_egress_permitted (ev : env) (st : iface) (m : smeta) : smeta * b
       else (m, false)
   end.
 
-(* socket_egress: one pass over the socket set; result = (interface, sockets, SocketStateChanged) *)
+(* socket_egress: one pass over the socket set; result = (interface, sockets, SocketStateChanged).
+   EMIT_BUSY (FragmenterBusy) is treated like Ok: the datagram stayed queued, nothing else happens. *)
 Fixpoint if_socket_egress_go (ev : env) (st : iface) (done : sset) (todo : sset) (res : bool)
   : outcome (iface * sset * bool) :=
   match todo with
@@ -776,7 +823,8 @@ Fixpoint if_egress_loop (fuel : nat) (ev : env) (st : iface) (ss : sset) : outco
   match fuel with
   | O => Ok (st, ss)
   | S k =>
-      do '(st', ss', res) <- if_socket_egress ev st ss;
+      (* poll_egress: ipv4_egress (one fragment), then socket_egress *)
+      do '(st', ss', res) <- if_socket_egress ev (if_ipv4_egress st) ss;
       if res then if_egress_loop k ev st' ss' else Ok (st', ss')
   end.
 
@@ -786,9 +834,16 @@ Definition sset_items (ss : sset) : nat :=
 (* --- ingress --- *)
 (* the response packet of socket_ingress is dispatched with the token that came with the frame;
    errors are only logged *)
-Definition if_reply (ev : env) (st : iface) (ver : Z) (dst : ipaddr) : outcome iface :=
-  do '(st', _) <- if_dispatch_ip ev st ver dst 0 (FO_Aux AUX_REPLY dst);
+Definition if_reply (ev : env) (st : iface) (ver : Z) (dst : ipaddr) (total : Z) : outcome iface :=
+  do '(st', _) <- if_dispatch_ip ev st ver dst total (FO_Aux AUX_REPLY dst);
   Ok st'.
+
+(* total length of the ICMP error the stack sends about a packet with [plen] bytes of IP payload:
+   IP header + 8 + the offending header + icmp_reply_payload_len(plen, MIN_MTU, header_len) *)
+Definition icmp_error_total (ver plen : Z) : Z :=
+  let hl := ip_header_len ver in
+  let min_mtu := if ver =? 4 then wipv4_MIN_MTU else wipv6_MIN_MTU in
+  hl + 8 + hl + Z.min plen (min_mtu - hl * 2 - 8).
 
 (* process_udp: the first udp socket that accepts gets the datagram; result = (sockets, handled) *)
 Fixpoint if_process_udp (ev : env) (ss : sset) (src : ipaddr) (sport : Z) (dst : ipaddr) (dport : Z)
@@ -867,7 +922,7 @@ Definition if_process_frame (ev : env) (st : iface) (ss : sset) (f : frame_in) :
         do '(ss', handled) <- if_process_udp ev ss src sport dst dport payload;
         if handled then Ok (st, ss')
         else if if_reply_allowed ev dst false
-        then do st' <- if_reply ev st (a_ver src) src; Ok (st', ss')
+        then do st' <- if_reply ev st (a_ver src) src (icmp_error_total (a_ver src) (wudp_HEADER_LEN + zlen payload)); Ok (st', ss')
         else Ok (st, ss')
   | FI_Icmp im valid =>
       if negb (if_dst_ok ev (im_dst im)) then Ok (st, ss)
@@ -877,7 +932,8 @@ Definition if_process_frame (ev : env) (st : iface) (ss : sset) (f : frame_in) :
       else
         do ss' <- if_process_icmp ss im;
         if (im_kind im =? IK_ECHO_REQUEST) && if_reply_allowed ev (im_dst im) true
-        then do st' <- if_reply ev st (a_ver (im_src im)) (im_src im); Ok (st', ss')
+        then do st' <- if_reply ev st (a_ver (im_src im)) (im_src im)
+                          (ip_header_len (a_ver (im_src im)) + zlen (im_bytes im)); Ok (st', ss')
         else Ok (st, ss')
   | FI_Other r payload =>
       if ir_ver r =? 4 then
@@ -888,7 +944,7 @@ Definition if_process_frame (ev : env) (st : iface) (ss : sset) (f : frame_in) :
         let st := neigh_refresh ev st (ir_src r) (ir_dst r) in
         if handled then Ok (st, ss')
         else if if_reply_allowed ev (ir_dst r) false
-        then do st' <- if_reply ev st 4 (ir_src r); Ok (st', ss')
+        then do st' <- if_reply ev st 4 (ir_src r) (icmp_error_total 4 (zlen payload)); Ok (st', ss')
         else Ok (st, ss')
       else
         if negb (if_dst_ok ev (ir_dst r)) then Ok (st, ss)
@@ -896,7 +952,7 @@ Definition if_process_frame (ev : env) (st : iface) (ss : sset) (f : frame_in) :
           do '(ss', handled) <- if_raw_socket_filter ss r payload;
           let st := neigh_refresh ev st (ir_src r) (ir_dst r) in
           if handled then Ok (st, ss')
-          else do st' <- if_reply ev st 6 (ir_src r); Ok (st', ss')
+          else do st' <- if_reply ev st 6 (ir_src r) (icmp_error_total 6 (zlen payload)); Ok (st', ss')
   end.
 
 (* the ingress loop of Interface::poll: while the device hands out a frame (and a tx token) *)
